@@ -52,6 +52,21 @@ theorem unle_le (n v : Nat) (h : v < 256 ^ n) : unle (le n v) = v := by
       exact Nat.div_lt_of_lt_mul (by rw [Nat.mul_comm]; exact h)
     simp [le, unle, ih _ this]; omega
 
+theorem int_beq (x y : Nat) : (((x : Int) == (y : Int)) : Bool) = decide (x = y) := by
+  by_cases h : x = y
+  · simp [h]
+  · have : ¬ ((x : Int) = (y : Int)) := by omega
+    simp [h, this]
+
+theorem unle_rd1 (img : List Nat) (off : Nat) (h : off < img.length) : unle (rd img off 1) = byteAt img off := by
+  have hd : (img.drop off).length ≥ 1 := by rw [List.length_drop]; omega
+  match hm : img.drop off, hd with
+  | x :: t, _ =>
+    have h1 : (img.drop off)[0]? = img[off + 0]? := List.getElem?_drop
+    rw [hm] at h1
+    have h2 : img[off]? = some x := by simpa using h1.symm
+    simp [rd, hm, unle, byteAt, List.getD, h2]
+
 /-! ## Byte order: `lltd_htons` / `lltd_htonl` as translated store the big-endian bytes of the model -/
 
 theorem and_mask (v k : Nat) : v &&& (255 <<< k) = ((v >>> k) % 256) <<< k := by
